@@ -382,6 +382,57 @@ STMT_TAILS = ["f()\n", "h()\n", "A()\n", "x\n", "'s'\n", "print(1)\n", "_ = f()\
               "for _ in x:\n    f()\nelse:\n    h()\n", "if x:\n    f()\n", "while x:\n    f()\n    y = 1\n"]
 
 
+# ---- classes whose constructors differ in effect (quiet / loud x __init__ / __new__ / __post_init__,
+# dataclass style, two constructors, constructor calling another definition, inherited constructor)
+CLASS_KINDS = {
+    "bare": "class {n}:\n    kind = 1\n",
+    "quiet_init": "class {n}:\n    def __init__(self):\n        pass\n",
+    "loud_init": "class {n}:\n    def __init__(self):\n        print(1)\n",
+    "quiet_new": "class {n}:\n    def __new__(cls):\n        return 1\n",
+    "loud_new": "class {n}:\n    def __new__(cls):\n        print(1)\n        return 1\n",
+    "quiet_post": "class {n}:\n    def __post_init__(self):\n        pass\n",
+    "loud_post": "class {n}:\n    def __post_init__(self):\n        print(1)\n",
+    "setter_init": "class {n}:\n    def __init__(self):\n        registry.append(1)\n",
+    "thrower_init": "class {n}:\n    def __init__(self):\n        raise E\n",
+    "indirect_loud": "class {n}:\n    def __init__(self):\n        loud()\n",
+    "indirect_quiet": "class {n}:\n    def __init__(self):\n        quiet()\n",
+    "quiet_init_loud_new": "class {n}:\n    def __new__(cls):\n        print(1)\n        return object.__new__(cls)\n"
+                           "    def __init__(self):\n        pass\n",
+    "quiet_init_other_method": "class {n}:\n    def __init__(self):\n        pass\n    def m(self):\n        print(1)\n",
+    "data_quiet_post": "@dataclass\nclass {n}:\n    v: int = 0\n    def __post_init__(self):\n        pass\n",
+    "data_loud_post": "@dataclass\nclass {n}:\n    v: int = 0\n    def __post_init__(self):\n        print(1)\n",
+    "child": "class {n}({o}):\n    pass\n",
+    "child_quiet_init": "class {n}({o}):\n    def __init__(self):\n        pass\n",
+}
+CLASS_PRELUDE = ("from dataclasses import dataclass\n"
+                 "def quiet():\n    return 1\n"
+                 "def loud():\n    print(2)\n    return 1\n")
+# instantiation in statement / comprehension / conditional-expression / tuple / boolean / f-string position
+CLASS_USES = ["{a}()\n", "{b}()\n", "[{b}() for _ in xs]\n", "[1 for _ in xs if {b}()]\n", "{{1: {b}() for _ in xs}}\n",
+              "{a}() if {b}() else {a}()\n", "({a}(), {b}())\n", "{a}() and {b}()\n", "f\"{{{b}()}}\"\n",
+              "-len([{b}()])\n"]
+
+
+def class_family(run):
+    """modules with two (or three) classes; every ordered pair of kinds"""
+    kinds = list(CLASS_KINDS)
+    out = []
+    for ka in kinds:
+        if ka.startswith("child"):
+            continue
+        for kb in kinds:
+            src = CLASS_PRELUDE + CLASS_KINDS[ka].format(n="A", o="object") + CLASS_KINDS[kb].format(n="B", o="A")
+            src += "".join(u.format(a="A", b="B") for u in CLASS_USES)
+            out.append(src)
+    # three classes: a quiet one in front of / behind a loud pair
+    for kq in ("quiet_init", "quiet_new", "data_quiet_post"):
+        for kb in ("loud_init", "loud_new", "setter_init", "thrower_init", "indirect_loud", "data_loud_post"):
+            src = (CLASS_PRELUDE + CLASS_KINDS[kb].format(n="B", o="object") + CLASS_KINDS[kq].format(n="Q", o="object")
+                   + CLASS_KINDS["child"].format(n="C", o="Q") + "B()\n[B() for _ in xs]\nQ() if B() else Q()\nC()\n")
+            out.append(src)
+    return out
+
+
 def gen_modules(run, rnd):
     mods = []
     names = ["f", "h"]
@@ -403,6 +454,7 @@ def gen_modules(run, rnd):
         mods.append("def k():\n    def f():\n    " + bf.format(h="f").replace("\n    ", "\n        ") + "    return f()\nk()\nf()\n")
         mods.append("async def f():\n" + bf.format(h="f") + "f()\n")
         mods.append("'doc'\ndef f():\n    'doc'\n    'more'\n" + bf.format(h="f") + "'s'\nf()\n")
+    mods += class_family(run)
     for _ in range(150 if run.tier == "quick" else 3000):
         fs = rnd.sample(["f", "h", "k", "f"], rnd.randint(1, 3))
         src = ""
@@ -1020,14 +1072,12 @@ def observable(beh, safe):
     return out
 
 
-def finding_sig(src_before):
-    """structural predicates of the listed findings, on the statement under test (exactly the ways in which
-    EffectModel.plain_s can fail)"""
-    before = ast.parse(src_before)
+def call_sigs(node) -> set:
+    """the syntactic ways in which EffectModel.plain can fail, in one tree"""
     sigs = set()
-    for node in ast.walk(before):
-        if isinstance(node, ast.Call):
-            f = node.func
+    for n in ast.walk(node):
+        if isinstance(n, ast.Call):
+            f = n.func
             if isinstance(f, ast.Name) and f.id == "_":
                 sigs.add("callee_by_name")
             if isinstance(f, ast.Attribute) and not isinstance(f.value, ast.Constant):
@@ -1035,8 +1085,44 @@ def finding_sig(src_before):
             if not isinstance(f, (ast.Name, ast.Attribute)):
                 sigs.add("callee_by_name")
             if isinstance(f, ast.Name) and f.id in HO and any(
-                    isinstance(a, ast.Name) for a in list(node.args) + [k.value for k in node.keywords]):
+                    isinstance(a, ast.Name) for a in list(n.args) + [k.value for k in n.keywords]):
                 sigs.add("higher_order_builtin")
+    return sigs
+
+
+def finding_sig(src_before, deleted=None):
+    """structural predicates of the listed findings.  F16-12 (callee_by_name) also covers callees that cannot be
+    resolved by their bare name: a name with several definitions, an imported name, a decorated definition, a
+    class with base classes / keywords.  Evaluated on the statements under test ([deleted], default: all) and on
+    the definitions they reach through plain-name calls."""
+    tree = ast.parse(src_before)
+    defs = {}
+    imported = set()
+    for n in ast.walk(tree):
+        if isinstance(n, (ast.FunctionDef, ast.AsyncFunctionDef, ast.ClassDef)):
+            defs.setdefault(n.name, []).append(n)
+        elif isinstance(n, (ast.Import, ast.ImportFrom)):
+            imported |= {(a.asname or a.name).split(".")[0] for a in n.names}
+    suspect = set(imported)
+    for name, ds in defs.items():
+        if len(ds) > 1:
+            suspect.add(name)
+        for d in ds:
+            if d.decorator_list or (isinstance(d, ast.ClassDef) and (d.bases or d.keywords)):
+                suspect.add(name)
+    roots = list(tree.body) if deleted is None else list(deleted)
+    sigs, seen, todo = set(), set(), list(roots)
+    while todo:
+        node = todo.pop()
+        sigs |= call_sigs(node)
+        for n in ast.walk(node):
+            if isinstance(n, ast.Call) and isinstance(n.func, ast.Name):
+                nm = n.func.id
+                if nm in suspect:
+                    sigs.add("callee_by_name")
+                if nm in defs and nm not in seen:
+                    seen.add(nm)
+                    todo += defs[nm]
     return sigs
 
 
@@ -1100,6 +1186,7 @@ def search_failing_input(mods, src):
     with common.quiet():
         try:
             out = fixes.delete_pointless_statements(src)
+            deleted = [n for n, _ in fixes.delete_pointless_statements._fix_func(src)]
         except Exception:  # noqa
             return None
     if out == src:
@@ -1119,8 +1206,28 @@ def search_failing_input(mods, src):
     o1, o2 = observable(b1[0], SAFE), observable(b2[0], SAFE)
     if o1 != o2:
         return {"case": src, "after": out, "only_before": sorted(map(repr, o1 - o2))[:3],
-                "only_after": sorted(map(repr, o2 - o1))[:3], "sigs": sorted(finding_sig(src))}
+                "only_after": sorted(map(repr, o2 - o1))[:3], "sigs": sorted(finding_sig(src, deleted))}
     return None
+
+
+def check_class_family(run, mods, cov):
+    """deterministic sweep: every module of the class family through delete_pointless_statements, executed
+    before / after (the classes and functions really run)"""
+    fails, known, n, n_del = [], Counter(), 0, 0
+    for src in class_family(run):
+        n += 1
+        r = search_failing_input(mods, src)
+        if r is None:
+            continue
+        n_del += 1
+        if r["sigs"]:
+            for s in r["sigs"]:
+                known[s] += 1
+            r["matched"] = True
+        fails.append(r)
+    cov.update(class_family_modules=n, class_family_behaviour_changed=n_del, class_family_known=dict(known),
+               class_family_failures=len([f for f in fails if not f.get("matched")]))
+    return fails
 
 
 # ---------------------------------------------------------------------------------------------
@@ -1169,6 +1276,7 @@ def check(run, mods, wd, rnd):
     sem_bad = check_semantics(run, mods, wd, rnd, cov)
     t3 = time.time()
     e2e = check_end_to_end(run, mods, wd, rnd, cov)
+    e2e += check_class_family(run, mods, cov)
     t4 = time.time()
     cov["stage_wall_s"] = {"hse": round(t1 - t0, 1), "modules": round(t2 - t1, 1), "semantics": round(t3 - t2, 1),
                            "end_to_end": round(t4 - t3, 1)}
